@@ -252,7 +252,9 @@ def reference_cases(state: List[El], new: El, new2: El, dup: Optional[El]) -> Li
                 return ok([y for y in L if y.id != key])
             return ("raise", {"ValueError", "KeyError"})
         out.append(Case("remove", [key], f"remove({key!r})", exp_rm_id))
-    subs = [[], L[:1], L[-1:], list(reversed(L)), L[1:], [absent], L[:1] + [absent], [absent] + L[:1], L[:1] + L[:1]]
+    subs = [[absent], L[:1] + [absent], [absent] + L[:1], L[:1] + L[:1], L[-1:] + [absent]]
+    for r in range(0, min(n, 3) + 1):
+        subs += [list(p) for p in itertools.permutations(L, r)]
     for xs in subs:
         def exp_sub(L_, xs=xs, inplace=False):
             if all(any(y is x for y in L) for x in xs) and len({id(x) for x in xs}) == len(xs):
@@ -261,7 +263,7 @@ def reference_cases(state: List[El], new: El, new2: El, dup: Optional[El]) -> Li
         out.append(Case("__isub__", [list(xs)], f"-= {xs!r}", lambda L_, xs=xs, f=exp_sub: ok(f(L_, xs), "self") + ("self",) if f(L_, xs) is not None else ("raise", {"ValueError", "KeyError"})))
         out.append(Case("__sub__", [list(xs)], f"- {xs!r}", lambda L_, xs=xs, f=exp_sub: ("new", f(L_, xs)) if f(L_, xs) is not None else ("raise", {"ValueError", "KeyError"})))
     # slices
-    slices = [slice(None), slice(1, None), slice(None, 1), slice(None, None, 2), slice(None, None, -1), slice(1, 2), slice(5, None), slice(-1, None), slice(0, 0), slice(-2, -1), slice(None, -1)]
+    slices = [slice(a, b, c) for a in (None, 0, 1, -1, -2) for b in (None, 1, 2, -1) for c in (None, 2, -1)] + [slice(5, None), slice(0, 0), slice(None, None, 3), slice(None, None, -2)]
     for s in slices:
         out.append(Case("__getitem__", [s], f"[{_ss(s)}]", lambda L_, s=s: ("new", L[s])))
 
@@ -339,18 +341,21 @@ def run_model(prog) -> ModelReport:
         except RecursionError:
             raise AnalysisError(f"C15.model: DictList.{op}: evaluation does not terminate")
 
-    shapes: List[Tuple[int, Optional[Sequence[int]]]] = [(0, None), (1, None), (2, None), (3, None), (3, (2, 0, 1)), (2, (1, 0))]
+    shapes: List[Tuple[int, Optional[Sequence[int]]]] = [(0, None), (1, None), (2, None), (3, None), (4, None), (3, (2, 0, 1)), (2, (1, 0))]
     for k, order in shapes:
         dl0, els0 = _fresh_state(DL, k, order)
         rep.states += 1
         new, new2 = El("n"), El("m")
         dup = El(els0[0].id, "'") if els0 else None
-        n_cases = len(reference_cases(els0, new, new2, dup))
-        for ci in range(n_cases):
-            dl, els = _fresh_state(DL, k, order)
-            new, new2 = El("n"), El("m")
-            dup = El(els[0].id, "'") if els else None
-            case = reference_cases(els, new, new2, dup)[ci]
+        cases = reference_cases(els0, new, new2, dup)
+        dl, els = dl0, els0
+        for case in cases:
+            # back to the start state (same element objects: the operations do not change elements)
+            list.clear(dl)
+            list.extend(dl, els)
+            list.__getattribute__(dl, "__dict__").clear()
+            list.__getattribute__(dl, "__dict__")["_dict"] = {e.id: i for i, e in enumerate(els)}
+            case.args = [list(a) if isinstance(a, list) else a for a in case.args]
             if case.op not in methods:
                 if case.op in ("add", "union", "__copy__"):
                     rep.bad(case.op, f"DictList.{case.op} is missing")
